@@ -109,6 +109,7 @@ load:装载是否不为空
 void bufferctrl::set_ready(bool load)
 {
   std::unique_lock<std::mutex> locker(lock);
+  WV_ASSERT("[C04,C14] the state of a buffer is changed only while its mutex is held (a waiter tests it under the same mutex)", this->lock.held);
   if (load)
     state = READY;
   else
@@ -127,6 +128,7 @@ void bufferctrl::set_update()
   std::unique_lock<std::mutex> locker(lock);
   if (state == READY)
   {
+    WV_ASSERT("[C04,C14] the state of a buffer is changed only while its mutex is held (a waiter tests it under the same mutex)", this->lock.held);
     state = UPDATING;
     cv_update.notify_all();
   }
